@@ -211,6 +211,10 @@ pub struct EeSpec {
     /// notBefore / notAfter, Unix seconds
     pub nb: i64,
     pub na: i64,
+    /// the EE certificate as another conforming implementation might have written it
+    /// (independent-writer objects only; see `der::Dress`)
+    #[serde(default)]
+    pub dress: der::Dress,
 }
 
 #[derive(Clone, Copy, Debug, PartialEq, Eq)]
@@ -326,6 +330,31 @@ pub fn build_ee(spec: &EeSpec, fault: EeFault) -> Cert {
     }
     let sign_key = if fault == EeFault::WrongSigner { issuer + 1 } else { issuer };
     ee.into_cert(&signer, &signer.key(sign_key)).expect("sign EE")
+}
+
+/// The EE certificate in DER, in the foreign dress the spec asks for (re-signed by
+/// the key `build_ee` signed with).
+pub fn build_ee_der(spec: &EeSpec, fault: EeFault) -> Result<Vec<u8>, Fail> {
+    let der = build_ee(spec, fault).to_captured().into_bytes().to_vec();
+    if spec.dress.is_plain() {
+        return Ok(der);
+    }
+    let issuer = spec.issuer as usize % POOL_SIZE;
+    let sign_key = if fault == EeFault::WrongSigner { issuer + 1 } else { issuer };
+    der::dress_cert(&der, sign_key % POOL_SIZE, &spec.dress).map_err(|e| Fail::new(format!("harness: dressing the EE certificate failed: {}", e)))
+}
+
+fn label_dress(obs: &mut Obs, d: &der::Dress) -> bool {
+    if d.is_plain() {
+        return false;
+    }
+    obs.label("ee-dressed");
+    obs.label_if(d.perm != 0, "ee-dress-ext-order");
+    obs.label_if(!d.unknown.is_empty(), "ee-dress-unknown-ext");
+    obs.label_if(d.sia != 0 || d.cps || d.crldp_https != 0, "ee-dress-sia-policy-crldp");
+    obs.label_if(d.as_id_as_range != 0, "ee-dress-as-range");
+    obs.label_if(d.acceptance_optional(), "ee-dress-acceptance-optional");
+    d.acceptance_optional()
 }
 
 //------------ resource model ---------------------------------------------------
@@ -702,8 +731,10 @@ fn ee_strategy(wide: bool) -> BoxedStrategy<EeSpec> {
     } else {
         window_strategy()
     };
-    (0u8..8, 0u8..8, res_strategy(false), res_strategy(true), asres_strategy(), prop::bool::weighted(0.25), win)
-        .prop_map(|(key, issuer, v4, v6, asn, trim, (nb, na))| EeSpec { key, issuer, v4, v6, asn, trim, nb, na }.normalize())
+    (0u8..8, 0u8..8, res_strategy(false), res_strategy(true), asres_strategy(), prop::bool::weighted(0.25), win, (any::<u16>(), any::<u64>()))
+        .prop_map(|(key, issuer, v4, v6, asn, trim, (nb, na), (dc, dr))| {
+            EeSpec { key, issuer, v4, v6, asn, trim, nb, na, dress: der::Dress::from_raw(dc, dr) }.normalize()
+        })
         .boxed()
 }
 
@@ -1166,8 +1197,7 @@ pub fn assemble_seg(
     if content.is_empty() && matches!(tamper, Tamper::ContentFlip(_)) {
         content.push(0x5A);
     }
-    let cert = build_ee(ee, tamper.ee_fault());
-    let cert_der = cert.to_captured().into_bytes().to_vec();
+    let cert_der = build_ee_der(ee, tamper.ee_fault())?;
     let key = ee.key as usize % POOL_SIZE;
     let mut cms = Cms::standard(ct, &content, cert_der, vec![], key, opts.st(), &[], opts.cms());
     if let Some(s) = seg {
@@ -1489,6 +1519,7 @@ fn run_generic(c: &Generic, obs: &mut Obs) -> CheckResult {
     // never in strict mode: DER has no constructed OCTET STRING
     let seg = if c.strict { None } else { c.seg.as_ref() };
     let dishonest = label_seg(obs, seg, &content);
+    let opt_dress = label_dress(obs, &c.ee.dress);
     let (bytes, attrs_len) = assemble_seg(&ct, &content, &c.ee, c.opts, c.tamper, seg)?;
     check_own_verifier_seg(&bytes, c.tamper, dishonest)?;
     let issuer = issuer_for(&c.ee, c.tamper);
@@ -1540,7 +1571,7 @@ fn run_generic(c: &Generic, obs: &mut Obs) -> CheckResult {
     }
     let got: Result<(), String> = got.map(|_| ());
     obs.label_if(seg.is_some() && expect && got.is_ok(), "seg:honest-accepted");
-    label_common_seg(obs, c.tamper, attrs_len, expect, seg.is_some(), c.strict);
+    label_common_seg(obs, c.tamper, attrs_len, expect, seg.is_some() || opt_dress, c.strict);
     obs.label(match c.ct { Ct::Other(_) => "ct:arbitrary", _ => "ct:registered" });
     obs.label_if(!in_window, "out-of-window");
     obs.label_if(!res_ok, "ee-overclaim");
@@ -1566,7 +1597,7 @@ fn run_generic(c: &Generic, obs: &mut Obs) -> CheckResult {
     });
     obs.label_if(ct.len() >= 128, "ct-oid>=128");
     obs.nontrivial_if(attrs_len >= 128 || c.tamper != Tamper::None || dishonest);
-    compare_seg("generic", expect, seg.is_some(), &got, attrs_len, &|| {
+    compare_seg("generic", expect, seg.is_some() || opt_dress, &got, attrs_len, &|| {
         format!(
             "tamper={:?} eval={:?} in_window={} res_ok={} crl_ok={} strict={} segments={:?} digest-over-part={}",
             c.tamper, c.eval, in_window, res_ok, crl_ok, c.strict, seg.map(|s| s.lens(content.len())), dishonest
@@ -1601,6 +1632,9 @@ pub struct RoaCase {
     /// eContent in BER constructed form (independent writer, `strict == false` only)
     #[serde(default)]
     pub seg: Option<Seg>,
+    /// independent writer: the IPv6 family comes before the IPv4 one
+    #[serde(default)]
+    pub v6_first: bool,
 }
 
 /// ROA prefix drawn relative to the EE's (or issuer's) blocks.
@@ -1640,9 +1674,9 @@ fn roa_strategy(_: Tier) -> BoxedStrategy<RoaCase> {
         opts_strategy(),
         any::<bool>(),
         (prop::bool::weighted(0.85), prop::bool::weighted(0.3)),
-        (tamper_strategy(40), opt_seg_strategy(0.3)),
+        (tamper_strategy(40), opt_seg_strategy(0.3), prop::bool::weighted(0.3)),
     )
-        .prop_map(|(builder, as_id, r4, r6, mut ee, opts, strict, (crl_ok, issuer_revoked), (tamper, seg))| {
+        .prop_map(|(builder, as_id, r4, r6, mut ee, opts, strict, (crl_ok, issuer_revoked), (tamper, seg, v6_first))| {
             let seg = if strict || builder { None } else { seg };
             // the EE of a ROA has no AS resources
             ee.asn = AsRes::Missing;
@@ -1685,7 +1719,7 @@ fn roa_strategy(_: Tier) -> BoxedStrategy<RoaCase> {
                     tamper = Tamper::None;
                 }
             }
-            RoaCase { builder, as_id, v4, v6, ee, opts, strict, crl_ok, tamper, issuer_revoked, seg }
+            RoaCase { builder, as_id, v4, v6, ee, opts, strict, crl_ok, tamper, issuer_revoked, seg, v6_first }
         })
         .boxed()
 }
@@ -1734,6 +1768,7 @@ fn run_roa(c: &RoaCase, obs: &mut Obs) -> CheckResult {
     all.extend(c.v6.iter().map(|r| (true, *r)));
     let seg = if c.strict || c.builder { None } else { c.seg.as_ref() };
     let mut dishonest = false;
+    let mut opt_dress = false;
     let (bytes, attrs_len, val) = if c.builder {
         let mut b = RoaBuilder::new(Asn::from_u32(c.as_id));
         for r in &c.v4 {
@@ -1761,7 +1796,9 @@ fn run_roa(c: &RoaCase, obs: &mut Obs) -> CheckResult {
     } else {
         let v4: Vec<RoaPfx> = c.v4.iter().map(|r| RoaPfx { bits: r.p.bits.0, len: r.p.len, max_len: r.max_len }).collect();
         let v6: Vec<RoaPfx> = c.v6.iter().map(|r| RoaPfx { bits: r.p.bits.0, len: r.p.len, max_len: r.max_len }).collect();
-        let content = der::roa_content(c.as_id, &v4, &v6, false);
+        let content = der::roa_content_ordered(c.as_id, &v4, &v6, false, c.v6_first);
+        obs.label_if(c.v6_first && !v4.is_empty() && !v6.is_empty(), "roa-ipv6-family-first");
+        opt_dress = label_dress(obs, &c.ee.dress);
         dishonest = label_seg(obs, seg, &content);
         let (bytes, attrs_len) = assemble_seg(oids::CT_ROA, &content, &c.ee, c.opts, c.tamper, seg)?;
         check_own_verifier_seg(&bytes, c.tamper, dishonest)?;
@@ -1804,7 +1841,7 @@ fn run_roa(c: &RoaCase, obs: &mut Obs) -> CheckResult {
         },
     };
     obs.label_if(seg.is_some() && expect && got.is_ok(), "seg:honest-accepted");
-    label_common_seg(obs, c.tamper, attrs_len, expect, seg.is_some(), c.strict);
+    label_common_seg(obs, c.tamper, attrs_len, expect, seg.is_some() || opt_dress, c.strict);
     obs.label(if c.builder { "writer:RoaBuilder" } else { "writer:der.rs" });
     obs.label_if(val.is_none(), "ee-overclaim");
     obs.label_if(val.is_some() && !covered, "uncovered-prefix");
@@ -1814,7 +1851,7 @@ fn run_roa(c: &RoaCase, obs: &mut Obs) -> CheckResult {
     obs.label_if(c.ee.trim, "ee-trim");
     crl.check("roa", &bytes, got.is_ok())?;
     obs.nontrivial_if(all.len() >= 2 || c.tamper != Tamper::None || attrs_len >= 128 || dishonest);
-    compare_seg("roa", expect, seg.is_some(), &got, attrs_len, &|| {
+    compare_seg("roa", expect, seg.is_some() || opt_dress, &got, attrs_len, &|| {
         format!(
             "tamper={:?} ee_ok={} covered={} crl_ok={} digest-over-part-of-segments={} validated={:?}",
             c.tamper, val.is_some(), covered, c.crl_ok, dishonest, val
@@ -1893,6 +1930,7 @@ fn run_aspa(c: &AspaCase, obs: &mut Obs) -> CheckResult {
     let issuer_idx = c.ee.issuer as usize % POOL_SIZE;
     let seg = if c.strict || c.builder { None } else { c.seg.as_ref() };
     let mut dishonest = false;
+    let opt_dress = !c.builder && label_dress(obs, &c.ee.dress);
     let (bytes, attrs_len, spec) = if c.builder {
         let b = AspaBuilder::new(Asn::from_u32(c.customer), c.providers.iter().map(|&p| Asn::from_u32(p)).collect::<Vec<_>>())
             .map_err(|e| Fail::new(format!("AspaBuilder::new: {}", e)))?;
@@ -1940,7 +1978,7 @@ fn run_aspa(c: &AspaCase, obs: &mut Obs) -> CheckResult {
         },
     };
     obs.label_if(seg.is_some() && expect && got.is_ok(), "seg:honest-accepted");
-    label_common_seg(obs, c.tamper, attrs_len, expect, seg.is_some(), c.strict);
+    label_common_seg(obs, c.tamper, attrs_len, expect, seg.is_some() || opt_dress, c.strict);
     obs.label(if c.builder { "writer:AspaBuilder" } else { "writer:der.rs" });
     obs.label_if(val.is_none(), "ee-overclaim");
     obs.label_if(val.is_some() && !customer_in, "customer-outside");
@@ -1951,7 +1989,7 @@ fn run_aspa(c: &AspaCase, obs: &mut Obs) -> CheckResult {
     obs.label_if(c.issuer_revoked, "crl-issuer-serial-listed");
     crl.check("aspa", &bytes, got.is_ok())?;
     obs.nontrivial_if(c.providers.len() >= 2 || c.tamper != Tamper::None || attrs_len >= 128 || dishonest);
-    compare_seg("aspa", expect, seg.is_some(), &got, attrs_len, &|| {
+    compare_seg("aspa", expect, seg.is_some() || opt_dress, &got, attrs_len, &|| {
         format!(
             "tamper={:?} ee_ok={} customer_in={} no_ip={} no_inherit={} crl_ok={} digest-over-part-of-segments={}",
             c.tamper, val.is_some(), customer_in, no_ip, no_inherit, c.crl_ok, dishonest
@@ -2014,6 +2052,7 @@ fn run_mft(c: &MftCase, obs: &mut Obs) -> CheckResult {
     let issuer_idx = c.ee.issuer as usize % POOL_SIZE;
     let seg = if c.strict || c.builder { None } else { c.seg.as_ref() };
     let mut dishonest = false;
+    let opt_dress = !c.builder && label_dress(obs, &c.ee.dress);
     let (bytes, attrs_len) = if c.builder {
         let content = ManifestContent::new(
             c.number.into(),
@@ -2077,11 +2116,11 @@ fn run_mft(c: &MftCase, obs: &mut Obs) -> CheckResult {
         },
     };
     obs.label_if(seg.is_some() && expect && got.is_ok(), "seg:honest-accepted");
-    label_common_seg(obs, c.tamper, attrs_len, expect, seg.is_some(), c.strict);
+    label_common_seg(obs, c.tamper, attrs_len, expect, seg.is_some() || opt_dress, c.strict);
     obs.label(if c.builder { "writer:into_manifest" } else { "writer:der.rs" });
     obs.label_if(!in_window, "out-of-window");
     obs.nontrivial_if(c.entries.len() >= 2 || c.tamper != Tamper::None || dishonest);
-    compare_seg("manifest", expect, seg.is_some(), &got, attrs_len, &|| {
+    compare_seg("manifest", expect, seg.is_some() || opt_dress, &got, attrs_len, &|| {
         format!("tamper={:?} eval={:?} in_window={} digest-over-part-of-segments={}", c.tamper, c.eval, in_window, dishonest)
     })
 }
